@@ -289,4 +289,5 @@ func init() {
 		return ts + " " + core.OkHex(d.([]byte))
 	})
 	registerKeystoreOps()
+	registerTranslatorOps()
 }
